@@ -168,6 +168,46 @@ def campaign(c):
             for j in range(len(rq) - 1, 0, -1):
                 k = r2.below(j + 1); rq[j], rq[k] = rq[k], rq[j]
             check(c, min(n, 3000), [q for q in rq if q[0] == 'd' or 8 * q[1] <= min(n, 3000)], False, opts, 'mixed-raw', raws=[r2.chance(1, 2) for _ in rq])
+    # several contexts in one program (identification omitted, zero, equal, different; same and different hosts), used in turn:
+    # every packet carries the header of the context it was asked of
+    for i in range(10 if c.quick else 150):
+        r = c.rng.fork('ctxs%d' % i)
+        ctxs = []
+        lines = ['import ipv4;']
+        for k in range(2 + r.below(3)):
+            idv = r.choice([None, 0, 0, 1, 7, r.below(65536)])
+            hosts = r.choice([(0x0a010203, 0x0ac86432), (0x0a010203, 0x0ac86432), (0x01010101 + k, 0x02020202)])
+            data = bytes((j * 5 + k) % 251 for j in range(r.choice([8, 17, 40])))
+            ttl = r.choice([None, 64, 9])
+            lines.append('let c%d = ipv4::frag(%d.%d.%d.%d, %d.%d.%d.%d, %s%s"|%s|");' % ((k,) + tuple(hosts[0].to_bytes(4, 'big')) + tuple(hosts[1].to_bytes(4, 'big')) +
+                         ('id: %d, ' % idv if idv is not None else '', 'ttl: %d, ' % ttl if ttl is not None else '', data.hex())))
+            ctxs.append(dict(id=idv or 0, hosts=hosts, data=data, ttl=ttl or 64))
+        want = []
+        for _ in range(4 + r.below(6)):
+            k = r.below(len(ctxs)); cx = ctxs[k]; n = len(cx['data'])
+            kind = r.choice(['d', 'f', 't'])
+            if kind == 'd': lines.append('c%d.datagram();' % k); want.append((cx, 0, cx['data'], False))
+            elif kind == 't':
+                off = r.below(n // 8 + 1); lines.append('c%d.tail(%d);' % (k, off)); want.append((cx, off, cx['data'][8 * off:], False))
+            else:
+                off = r.below(n // 8 + 1); ln = r.below(3); e = min(8 * (off + ln), n)
+                lines.append('c%d.fragment(%d, %d);' % (k, off, ln)); want.append((cx, off, cx['data'][8 * off:e], e < n))
+        src = ('\n'.join(lines) + '\n').encode()
+        impl, model = progdiff.run_both(c, src)
+        progdiff.compare(c, src, impl, model, 'frag-contexts', project=lambda f: f[14:], times=False)
+        recs = [x[1][14:] for x in progdiff.pcap_records(impl['file'] or b'')]
+        if impl['outcome'][0] != 'success' or len(recs) != len(want):
+            c.violation('frag:count', 'several contexts: %s, %d records for %d calls' % (impl['outcome'][:2], len(recs), len(want)), dict(src=src.decode()))
+        else:
+            for d, (cx, off, data, mf) in zip(recs, want):
+                kvs = parse_kv(c.model.ask('oracle frag ' + sh_hex(d)))
+                exp = dict(src=str(cx['hosts'][0]), dst=str(cx['hosts'][1]), id=str(cx['id']), ttl=str(cx['ttl']), off=str(off), mf=str(mf).lower(), data=sh_hex(data))
+                bad = [k for k in exp if kvs.get(k) != exp[k]]
+                if bad:
+                    c.violation('frag:field:' + ','.join(bad), 'with %d contexts in one program a packet does not carry the header / bytes of the context it was asked of: %s' % (len(ctxs), {k: (kvs.get(k), exp[k]) for k in bad}), dict(src=src.decode()))
+                    break
+            c.traces_validated += 1
+        c.case(('contexts', i), dict(kind='several-contexts', n=len(ctxs)) if i % 3 == 0 else None)
     c.assumptions += ['fragments are decoded from the real pcap by Spec.decodeFrag; IP header checksums are C02\'s business']
 
 
